@@ -19,8 +19,16 @@
      - for ALL inputs: comments, white space and line endings do not influence the verdict
        (C01_comment_insensitive, sieve/CommentFacts.v);
      - parse_total (props/C02.v): every other outcome is a SieveParseError, never a crash or a hang.
+     - the rejection side (sieve/RejectFacts.v): after EVERY prefix of a script of the grammar -- complete
+       commands and `if <test> {` / `else {` openers nested to any depth (wf_prefix; C01_prefix_ready) -- each
+       class of offending token named by the property stops the parse at that token, whatever follows: an
+       unknown command or one whose extension is not loaded, a test in command position, a token that cannot
+       start a command, '}' with no block open, anything but the name of a test after `if` (an action as a
+       test, an unknown name, a string), an argument list the specification refuses (wrong type, wrong order,
+       unknown tag, surplus argument, bad value of a tag's parameter: legal = LReject) at a token of one of
+       the arguments, '{' after a command that takes no block, a command name where ';' is missing;
    The converse (soundness of acceptance with respect to the RFC 5228 generic grammar) is NOT proved in
-   general: the structural theorem C01_accept_final_state is, and the executable oracle
+   general: the rejection classes above and the structural theorem C01_accept_final_state are, and the executable oracle
    harness/sieve_spec.py (generic grammar + frozen signatures) is compared with the implementation on the
    exhaustive token enumeration, the structure cases and the generated scripts by the check, and the model
    is compared with the implementation on the same inputs. *)
@@ -29,7 +37,7 @@ From Coq Require Import List NArith Bool Arith.
 From SV Require Import Bytes Lexer Tables ArgCheck ArgSpec Machine Printer GenTables.
 Import ListNotations.
 Local Open Scope nat_scope.
-From SV Require Import ArgCheckFacts GateFacts PositionFacts TotalFacts CompleteFacts CompleteTree CompleteExamples CommentFacts.
+From SV Require Import ArgCheckFacts GateFacts PositionFacts TotalFacts CompleteFacts CompleteTree CompleteExamples CommentFacts RejectFacts RejectExamples.
 
 (* feeding an argument sequence to check_next_arg: complete / incomplete / rejected exactly as the specification says, with the same recorded values *)
 Theorem C01_argcheck_correct :
@@ -201,6 +209,178 @@ Theorem C01_script_example :
     wf_cmds gen_tables [] None ex_script ns L' /\ parse gen_tables ex_text = Accept ns.
 Proof. exact CompleteExamples.ex_wf. Qed.
 Print Assumptions C01_script_example.
+
+(* after every prefix of a script of the grammar (complete commands, block openers, any depth) the machine stands between commands with the extensions required so far *)
+Theorem C01_prefix_ready :
+  forall T : tables,
+  twf_tables T = true ->
+  forall (pre : list token) (L : list bytes) (prev : option bytes) (k : nat),
+  wf_prefix T pre L prev k ->
+  exists st : pstate,
+    steps T p_init pre = Some st /\
+    ready st /\
+    p_loaded st = L /\
+    prev_name (place_of st) = prev /\
+    Datatypes.length (p_brackets st) = k /\
+    Forall (fun b : bracket => b = BRCBracket) (p_brackets st).
+Proof. exact RejectFacts.prefix_ready. Qed.
+Print Assumptions C01_prefix_ready.
+
+(* tokens the machine takes, then one it refuses: rejected with that error at that token, whatever follows *)
+Theorem C01_reject_after_prefix :
+  forall (T : tables) (text : bytes) (pre : list token) (t : token) 
+    (rest : list token) (st : pstate) (e : perr),
+  fst (lex text) = pre ++ t :: rest ->
+  steps T p_init (map strip_pos pre) = Some st ->
+  stops (process T st t) e -> parse T text = Reject e (t_pos t) (Datatypes.length (t_val t)).
+Proof. exact RejectFacts.reject_after_prefix. Qed.
+Print Assumptions C01_reject_after_prefix.
+
+(* an unknown command / a command whose extension is not loaded, at any depth *)
+Theorem C01_unknown_command_rejected :
+  forall T : tables,
+  twf_tables T = true ->
+  forall (text : bytes) (pre : list token) (t : token) (rest : list token) 
+    (L : list bytes) (prev : option bytes) (k : nat) (e : perr),
+  wf_prefix T (map strip_pos pre) L prev k ->
+  fst (lex text) = pre ++ t :: rest ->
+  t_kind t = TIdentifier ->
+  get_command_instance T L (t_val t) = inr e ->
+  parse T text = Reject e (t_pos t) (Datatypes.length (t_val t)).
+Proof. exact RejectFacts.unknown_command_rejected. Qed.
+Print Assumptions C01_unknown_command_rejected.
+
+(* a test in command position *)
+Theorem C01_test_as_command_rejected :
+  forall T : tables,
+  twf_tables T = true ->
+  forall (text : bytes) (pre : list token) (t : token) (rest : list token) 
+    (L : list bytes) (prev : option bytes) (k : nat) (d : cmddef),
+  wf_prefix T (map strip_pos pre) L prev k ->
+  fst (lex text) = pre ++ t :: rest ->
+  t_kind t = TIdentifier ->
+  get_command_instance T L (t_val t) = inl d ->
+  d_type d = CTest ->
+  parse T text = Reject (EFirstCommand (d_name d)) (t_pos t) (Datatypes.length (t_val t)).
+Proof. exact RejectFacts.test_as_command_rejected. Qed.
+Print Assumptions C01_test_as_command_rejected.
+
+(* a string, number, tag, bracket, comma, semicolon or '{' where a command must start *)
+Theorem C01_no_command_start_rejected :
+  forall T : tables,
+  twf_tables T = true ->
+  forall (text : bytes) (pre : list token) (t : token) (rest : list token) 
+    (L : list bytes) (prev : option bytes) (k : nat),
+  wf_prefix T (map strip_pos pre) L prev k ->
+  fst (lex text) = pre ++ t :: rest ->
+  starts_nothing (t_kind t) = true ->
+  parse T text = Reject EUnexpectedToken (t_pos t) (Datatypes.length (t_val t)).
+Proof. exact RejectFacts.no_command_start_rejected. Qed.
+Print Assumptions C01_no_command_start_rejected.
+
+(* '}' with no block open *)
+Theorem C01_stray_rcb_rejected :
+  forall T : tables,
+  twf_tables T = true ->
+  forall (text : bytes) (pre : list token) (t : token) (rest : list token) 
+    (L : list bytes) (prev : option bytes),
+  wf_prefix T (map strip_pos pre) L prev 0 ->
+  fst (lex text) = pre ++ t :: rest ->
+  t_kind t = TRightCBracket ->
+  parse T text = Reject EBracketNone (t_pos t) (Datatypes.length (t_val t)).
+Proof. exact RejectFacts.stray_rcb_rejected. Qed.
+Print Assumptions C01_stray_rcb_rejected.
+
+(* after `if` / `elsif`: an unknown name, the name of an action or control (action as test), any other token *)
+Theorem C01_test_position_rejected :
+  forall T : tables,
+  twf_tables T = true ->
+  forall (text : bytes) (pre : list token) (tn t : token) (rest : list token) 
+    (L : list bytes) (prev : option bytes) (k : nat) (d : cmddef),
+  wf_prefix T (map strip_pos pre) L prev k ->
+  fst (lex text) = pre ++ tn :: t :: rest ->
+  t_kind tn = TIdentifier ->
+  get_command_instance T L (t_val tn) = inl d ->
+  d_type d = CControl ->
+  d_accept_children d = true ->
+  has_arguments d = true ->
+  not_comment (t_kind t) = true ->
+  match t_kind t with
+  | TIdentifier =>
+      match get_command_instance T L (t_val t) with
+      | inl d' =>
+          d_type d' <> CTest ->
+          parse T text = Reject (ENotTest (d_name d')) (t_pos t) (Datatypes.length (t_val t))
+      | inr e => parse T text = Reject e (t_pos t) (Datatypes.length (t_val t))
+      end
+  | _ => parse T text = Reject EExpected (t_pos t) (Datatypes.length (t_val t))
+  end.
+Proof. exact RejectFacts.test_position_rejected. Qed.
+Print Assumptions C01_test_position_rejected.
+
+(* an argument list the table interpreter refuses stops the machine at a token of one of the arguments (string lists: at the closing bracket) *)
+Theorem C01_args_stop :
+  forall (T : tables) (args : list argument) (st : pstate) (f : frame) 
+    (rest : list frame) (e : option perr),
+  at_args st f rest ->
+  Forall arg_ok args ->
+  feed f args (p_loaded st) = FStop e ->
+  exists (pre : list token) (t : token) (more : list token) (st' : pstate) 
+  (e' : perr),
+    flat_map arg_toks args = pre ++ t :: more /\
+    steps T st pre = Some st' /\ stops (process T st' t) e'.
+Proof. exact RejectFacts.args_stop. Qed.
+Print Assumptions C01_args_stop.
+
+(* an action whose argument list the specification refuses (legal = LReject): rejected at a token of its arguments *)
+Theorem C01_illegal_arguments_rejected :
+  forall T : tables,
+  twf_tables T = true ->
+  forall (text : bytes) (pre : list token) (tn : token) (atoks rest : list token)
+    (L : list bytes) (prev : option bytes) (k : nat) (d : cmddef) 
+    (args : list argument) (e : option perr),
+  wf_prefix T (map strip_pos pre) L prev k ->
+  fst (lex text) = pre ++ tn :: atoks ++ rest ->
+  t_kind tn = TIdentifier ->
+  get_command_instance T L (t_val tn) = inl d ->
+  flat_def d = true ->
+  wf_def d = true ->
+  fixed_arity d = true ->
+  Forall arg_ok args ->
+  map strip_pos atoks = flat_map arg_toks args ->
+  legal d L args = LReject e ->
+  exists (t : token) (e' : perr),
+    In t atoks /\ parse T text = Reject e' (t_pos t) (Datatypes.length (t_val t)).
+Proof. exact RejectFacts.illegal_arguments_rejected. Qed.
+Print Assumptions C01_illegal_arguments_rejected.
+
+(* a block after a command that takes none; a command name where ';' is missing *)
+Theorem C01_after_flat_name_rejected :
+  forall T : tables,
+  twf_tables T = true ->
+  forall (text : bytes) (pre : list token) (tn t : token) (rest : list token) 
+    (L : list bytes) (prev : option bytes) (k : nat) (d : cmddef),
+  wf_prefix T (map strip_pos pre) L prev k ->
+  fst (lex text) = pre ++ tn :: t :: rest ->
+  t_kind tn = TIdentifier ->
+  get_command_instance T L (t_val tn) = inl d ->
+  flat_def d = true ->
+  t_kind t = TLeftCBracket /\ d_non_deterministic_args d = false \/
+  t_kind t = TIdentifier /\
+  match get_command_instance T L (t_val t) with
+  | inl d' => d_type d' <> CTest
+  | inr _ => True
+  end -> exists e : perr, parse T text = Reject e (t_pos t) (Datatypes.length (t_val t)).
+Proof. exact RejectFacts.after_flat_name_rejected. Qed.
+Print Assumptions C01_after_flat_name_rejected.
+
+(* non-vacuity on the generated tables (one of eleven examples in sieve/RejectExamples.v: prefix `require ["fileinto"]; if size :over 100K {`) *)
+Theorem C01_reject_examples :
+  let text := bs (px_text ++ "foo ""x""; }") in
+  parse gen_tables text = Reject (EUnknownCommand (bs "foo")) 46 3 /\
+  error_pos text (parse gen_tables text) = Some (3, 4, 3).
+Proof. exact RejectExamples.ex_unknown. Qed.
+Print Assumptions C01_reject_examples.
 
 (* an accepted script ends with an empty command stack, balanced brackets and nothing expected *)
 Theorem C01_accept_final_state :
